@@ -5,7 +5,7 @@ import sys
 
 from harness import common, coretok, corpus, gen_compose, propkit, sexp, unparsecorr
 
-VFILES = ["theories/Unparse.v", "theories/Parse.v", "theories/ParseProof.v", "theories/ParseTie.v"]
+VFILES = ["theories/Unparse.v", "theories/Parse.v", "theories/ParseProof.v", "theories/ParseTie.v", "theories/LowerCore.v"]
 
 
 def core_tree(rng, depth):
